@@ -10,6 +10,8 @@
 #include <sys/uio.h>
 #include <sys/syscall.h>
 #include <dlfcn.h>
+#include <cxxabi.h>
+#include <execinfo.h>
 #include <cstdarg>
 #include <cstdio>
 #include <cstdlib>
@@ -60,6 +62,8 @@ struct Th {
   int wait_pid = 0;
   int read_fd = -1;
   int in_handler = 0;
+  int in_alloc = 0;            // the thread is inside the memory allocator (an allocation chosen as a scheduling point)
+  int h_in_alloc = 0;          // ... and was so when the signal handler now running on its stack started
   vsim::Fate next_fate;
   std::vector<int> recent_pipes;
   int last_out_fd = -1;
@@ -100,6 +104,7 @@ bool is_recursive(pthread_mutex_t* m) { return (m->__data.__kind & 3) == PTHREAD
 std::vector<std::pair<std::string, long>> ctrs;
 vsim::fatal_cb on_fatal = nullptr;
 long cond_wait_calls = 0;
+long alloc_calls = 0;
 int last_run_tid = 0;
 
 void fnv(uint64_t& h, uint64_t x) { for (int i = 0; i < 8; ++i) { h = (h ^ ((x >> (8 * i)) & 0xff)) * 1099511628211ull; } }
@@ -298,6 +303,7 @@ void run_pending_handler() {
     for (int s = 1; s < 64; ++s) if (sigismember(&sa.sa_mask, s) == 1) m |= (1ull << s);
     self->sigmask |= m; self->in_handler++;
     int s_ign = self->ign; self->ign = 0;   // a handler is code under test whatever it interrupted
+    int s_hia = self->h_in_alloc; self->h_in_alloc = self->in_alloc; if (self->in_alloc) vsim::count("handler_interrupted_the_allocator");
     int saved = self->state; self->state = RUN;
     const void* s_obj = self->obj; const void* s_mtx = self->mtx; int s_join = self->join_target, s_wpid = self->wait_pid, s_rfd = self->read_fd;
     vsim::count("handler_runs");
@@ -306,7 +312,7 @@ void run_pending_handler() {
     sa.sa_handler(SIGCHLD);
     vsim::event(105, self->id, 0);
     self->state = saved; self->obj = s_obj; self->mtx = s_mtx; self->join_target = s_join; self->wait_pid = s_wpid; self->read_fd = s_rfd;
-    self->in_handler--; self->sigmask = old; self->ign = s_ign;
+    self->in_handler--; self->sigmask = old; self->ign = s_ign; self->h_in_alloc = s_hia;
     if (sig_pending_proc && can_take_signal(self)) { sig_pending_proc = false; self->deliver = true; }
   }
 }
@@ -371,6 +377,67 @@ const char* mutex_name(const void* m) {
   return "(anonymous)";
 }
 
+// source position(s) of a code address, inlined frames included (fatal paths only: runs addr2line)
+std::string where(const void* pc) {   // fatal path only: source position(s) of an access, inlined frames included
+  Dl_info i;
+  if (pc && dladdr(const_cast<void*>(pc), &i) && i.dli_fname) {
+    char cmd[1024]; snprintf(cmd, sizeof cmd, "addr2line -Cfpie '%s' 0x%lx 2>/dev/null", i.dli_fname, (unsigned long)(uintptr_t(pc) - uintptr_t(i.dli_fbase) - 1));
+    std::string out;
+    if (FILE* f = popen(cmd, "r")) {
+      char l[1200]; int n = 0;
+      while (n < 4 && fgets(l, sizeof l, f)) {
+        std::string s(l); while (!s.empty() && (s.back() == '\n' || s.back() == ' ')) s.pop_back();
+        if (s.empty() || s[0] == '?') continue;
+        auto at = s.rfind(" at "); std::string fn = at == std::string::npos ? s : s.substr(0, at), pos = at == std::string::npos ? "" : s.substr(at + 4);
+        if (fn.compare(0, 13, " (inlined by)") == 0) fn = fn.substr(14);
+        if (fn.size() > 90) fn = fn.substr(0, 90) + "...";
+        auto sl = pos.rfind('/'); if (sl != std::string::npos) { auto sl2 = pos.rfind('/', sl - 1); pos = pos.substr(sl2 == std::string::npos ? sl + 1 : sl2 + 1); }
+        auto disc = pos.find(" (discriminator"); if (disc != std::string::npos) pos = pos.substr(0, disc);
+        out += (n ? " <- " : "") + fn + " (" + pos + ")"; ++n;
+      }
+      pclose(f);
+    }
+    if (!out.empty()) return out;
+    if (i.dli_sname) { int st = 0; char* d = abi::__cxa_demangle(i.dli_sname, nullptr, nullptr, &st); std::string s = (st == 0 && d) ? d : i.dli_sname; free(d); return s.size() > 160 ? s.substr(0, 160) + "..." : s; }
+  }
+  return "(unknown function)";
+}
+
+// the innermost frames of the calling thread that belong neither to the C++ library nor to the simulator (fatal paths only)
+std::string stack_summary(int max_frames) {
+  void* fr[24]; int n = backtrace(fr, 24); std::string out; int shown = 0;
+  // one addr2line process for all the frames that lie in the executable itself
+  Dl_info i0; std::string cmd;
+  for (int k = 1; k < n; ++k) {
+    Dl_info i;
+    if (!dladdr(fr[k], &i) || !i.dli_fname) continue;
+    { std::string fnm(i.dli_fname); if (fnm.find(".so") != std::string::npos) continue; }   // shared objects (the C++ library, the simulator's own in the race variant) are not the code under test
+    if (cmd.empty()) { i0 = i; cmd = std::string("addr2line -Cfpie '") + i.dli_fname + "'"; }
+    if (i.dli_fbase != i0.dli_fbase) continue;
+    char a[32]; snprintf(a, sizeof a, " 0x%lx", (unsigned long)(uintptr_t(fr[k]) - uintptr_t(i.dli_fbase) - 1)); cmd += a;
+  }
+  if (cmd.empty()) return "(no frame of the code under test)";
+  cmd += " 2>/dev/null";
+  FILE* f = popen(cmd.c_str(), "r"); if (!f) return "(addr2line not available)";
+  char l[1200];
+  while (shown < max_frames && fgets(l, sizeof l, f)) {
+    std::string s(l); while (!s.empty() && (s.back() == '\n' || s.back() == ' ')) s.pop_back();
+    if (s.compare(0, 13, " (inlined by)") == 0) s = s.substr(14);
+    auto at = s.rfind(" at "); if (at == std::string::npos) continue;
+    std::string fn = s.substr(0, at), pos = s.substr(at + 4);
+    if (shown && pos.find("vsim.cpp") != std::string::npos) break;   // the simulator frame that called the handler: the frames below belong to the interrupted code
+    if (fn.empty() || fn[0] == '?' || fn.compare(0, 5, "std::") == 0 || (fn.find(" std::") != std::string::npos && fn.find("tfel::") == std::string::npos)) continue;
+    if (pos.find("/bits/") != std::string::npos || pos.find("/ext/") != std::string::npos || pos.find("vsim.cpp") != std::string::npos || pos.find("hutil.h") != std::string::npos || pos.find("/c++/") != std::string::npos) continue;
+    if (fn.find("vsim_Z") != std::string::npos || fn.find("alloc_point") != std::string::npos || fn.find("__wrap_") != std::string::npos || fn.find("operator new") != std::string::npos || fn.find("operator delete") != std::string::npos) continue;
+    auto par = fn.find('('); if (par != std::string::npos) fn = fn.substr(0, par);
+    auto sl = pos.rfind('/'); if (sl != std::string::npos) pos = pos.substr(sl + 1);
+    auto disc = pos.find(" (discriminator"); if (disc != std::string::npos) pos = pos.substr(0, disc);
+    out += (shown ? " <- " : "") + fn + " (" + pos + ")"; ++shown;
+  }
+  pclose(f);
+  return out.empty() ? "(no frame of the code under test)" : out;
+}
+
 std::string describe_threads() {
   std::string s;
   char b[256];
@@ -404,6 +471,7 @@ void begin(const Config& c) {
   hashv = 1469598103934665603ull; shash = 1469598103934665603ull;
 #ifdef VSIM_PROC
   for (auto& kv : children) if (kv.second.out_fd >= 0) __real_close(kv.second.out_fd);
+  alloc_calls = 0;
   pipes.clear(); fds.clear(); children.clear(); next_fd = 10000; next_pipe = 1; next_pid = 5000; sig_pending_proc = false;
   memset(handlers, 0, sizeof handlers);
 #endif
@@ -586,6 +654,34 @@ int pthread_join(pthread_t pt, void** ret) {
 }
 
 #ifdef VSIM_PROC
+// -------------------------------------------------------------------------- the memory allocator as seen by signal handlers
+// The objects compiled from /repo have their references to operator new / delete renamed to the functions below (objcopy
+// --redefine-sym).  malloc and free are not async-signal-safe: a handler that allocates or frees while the thread it interrupted is
+// itself inside the allocator blocks for ever on the arena lock that thread holds (or corrupts the heap).  An allocation is "inside
+// the allocator" for the simulator when it was chosen as a scheduling point (cfg.alloc_rate: one allocation in alloc_rate, phase
+// alloc_phase), which is the only place where a child can exit — and SIGCHLD be sent to this thread — while the allocation is in flight.
+static void alloc_point(const void* pc) {
+  if (!SIM_ON) return;
+  if (self->in_handler && self->h_in_alloc) {
+    (void)pc;
+    std::string site = vsim::stack_summary(3);
+    fatal("self-deadlock", "allocator re-entered by signal handler: the SIGCHLD handler running on thread T" + std::to_string(self->id) + " calls operator new/delete from " + site +
+          " while the thread it interrupted is inside malloc/free (not async-signal-safe: the arena lock is held by the interrupted thread); " + vsim::describe_threads());
+  }
+  const long k = alloc_calls++;
+  if (self->in_handler) vsim::count("allocator_calls_in_handlers"); else vsim::count("allocator_calls");
+  if (cfg.alloc_rate > 0 && !self->in_handler && (k % cfg.alloc_rate) == (cfg.alloc_phase % cfg.alloc_rate)) {
+    vsim::count("allocations_as_scheduling_points");
+    self->in_alloc++; ypoint(); self->in_alloc--;
+  }
+}
+void* vsim_Znwm(size_t n) { alloc_point(__builtin_return_address(0)); return ::operator new(n); }
+void* vsim_Znam(size_t n) { alloc_point(__builtin_return_address(0)); return ::operator new[](n); }
+void vsim_ZdlPv(void* p) { alloc_point(__builtin_return_address(0)); ::operator delete(p); }
+void vsim_ZdaPv(void* p) { alloc_point(__builtin_return_address(0)); ::operator delete[](p); }
+void vsim_ZdlPvm(void* p, size_t) { alloc_point(__builtin_return_address(0)); ::operator delete(p); }
+void vsim_ZdaPvm(void* p, size_t) { alloc_point(__builtin_return_address(0)); ::operator delete[](p); }
+
 // -------------------------------------------------------------------------- processes, pipes, signals
 int __wrap_pipe(int p[2]) {
   if (!SIM_ON) return __real_pipe(p);
@@ -774,30 +870,6 @@ void race_end() {
   vsim::count("race_reads_checked", n_rd); vsim::count("race_writes_checked", n_wr); vsim::count("race_atomic_ops", n_at); vsim::count("race_heap_blocks_forgotten", n_forget); vsim::count("race_library_calls_checked", n_lib);
   in_rt = false;
 }
-std::string where(const void* pc) {   // fatal path only: source position(s) of an access, inlined frames included
-  Dl_info i;
-  if (pc && dladdr(const_cast<void*>(pc), &i) && i.dli_fname) {
-    char cmd[1024]; snprintf(cmd, sizeof cmd, "addr2line -Cfpie '%s' 0x%lx 2>/dev/null", i.dli_fname, (unsigned long)(uintptr_t(pc) - uintptr_t(i.dli_fbase) - 1));
-    std::string out;
-    if (FILE* f = popen(cmd, "r")) {
-      char l[1200]; int n = 0;
-      while (n < 4 && fgets(l, sizeof l, f)) {
-        std::string s(l); while (!s.empty() && (s.back() == '\n' || s.back() == ' ')) s.pop_back();
-        if (s.empty() || s[0] == '?') continue;
-        auto at = s.rfind(" at "); std::string fn = at == std::string::npos ? s : s.substr(0, at), pos = at == std::string::npos ? "" : s.substr(at + 4);
-        if (fn.compare(0, 13, " (inlined by)") == 0) fn = fn.substr(14);
-        if (fn.size() > 90) fn = fn.substr(0, 90) + "...";
-        auto sl = pos.rfind('/'); if (sl != std::string::npos) { auto sl2 = pos.rfind('/', sl - 1); pos = pos.substr(sl2 == std::string::npos ? sl + 1 : sl2 + 1); }
-        auto disc = pos.find(" (discriminator"); if (disc != std::string::npos) pos = pos.substr(0, disc);
-        out += (n ? " <- " : "") + fn + " (" + pos + ")"; ++n;
-      }
-      pclose(f);
-    }
-    if (!out.empty()) return out;
-    if (i.dli_sname) { int st = 0; char* d = abi::__cxa_demangle(i.dli_sname, nullptr, nullptr, &st); std::string s = (st == 0 && d) ? d : i.dli_sname; free(d); return s.size() > 160 ? s.substr(0, 160) + "..." : s; }
-  }
-  return "(unknown function)";
-}
 std::string what(uintptr_t a) {
   Dl_info i;
   if (dladdr(reinterpret_cast<void*>(a), &i) && i.dli_sname) return std::string("global ") + i.dli_sname;
@@ -805,8 +877,8 @@ std::string what(uintptr_t a) {
 }
 bool ordered(const RAcc& x) { return x.tid < 0 || x.tid == self->id || x.clk <= vc_get(self->vc, x.tid); }
 void race_report(bool wr, const void* pc, const RAcc& o, bool owr, uintptr_t a) {
-  std::string d = std::string(wr ? "write" : "read") + " by T" + std::to_string(self->id) + " in " + where(pc) + " is not ordered with the earlier " + (owr ? "write" : "read") + " by T" +
-                  std::to_string(o.tid) + " in " + where(o.pc) + " (" + what(a) + "; no common lock, no create/join edge)";
+  std::string d = std::string(wr ? "write" : "read") + " by T" + std::to_string(self->id) + " in " + vsim::where(pc) + " is not ordered with the earlier " + (owr ? "write" : "read") + " by T" +
+                  std::to_string(o.tid) + " in " + vsim::where(o.pc) + " (" + what(a) + "; no common lock, no create/join edge)";
   fatal("data-race", d);
 }
 inline void race_access(const void* p, size_t n, bool wr, const void* pc) {
